@@ -69,7 +69,8 @@ def build(variant="plain", tag=None, repo=None):
     srcs = [os.path.join(dest, s) for s in C_SOURCES]
     incs = ["-I" + inc, "-I" + os.path.join(dest, "qubovert", "sim", "src")]
     if variant == "plain":
-        cmd = ["gcc", "-O2", "-fPIC", "-shared", "-fwrapv"] + incs + srcs + \
+        # -DNDEBUG as in CPython's own CFLAGS, which setup.py's build_ext uses (C asserts off: what users run)
+        cmd = ["gcc", "-O2", "-DNDEBUG", "-fPIC", "-shared", "-fwrapv"] + incs + srcs + \
             ["-o", out, "-lm"]
     elif variant == "asan":
         cmd = ["clang", "-O1", "-g", "-fno-omit-frame-pointer",
